@@ -146,3 +146,23 @@ fn o6_3_sender_and_receiver_alloc_sizes_agree() {
     kani::cover!(len == MAX_FRAGMENT_SIZE + 1, "just over one fragment");
     std::mem::forget(d);
 }
+
+// ---- C19: teardown mid-assembly leaves no allocation behind (CBMC --memory-leak-check) ----
+//@h props=C19,C06 tier=quick timeout=900 role=leak-assembly cbmc=--memory-leak-check
+//@fn AssemblyWindow::{try_add, clear}, FragmentBuffer::{new, write}, drop glue of AssemblyWindow / ActiveEntry / FragmentBuffer
+//@bound 4-slot assembly window; fragment 0 (1448 bytes) of a two-fragment packet arrives, fragment 1 never does; a complete one-fragment packet arrives in another slot and is taken; the window is dropped mid-assembly
+//@assume CBMC's memory-leak check (every allocation still live at the end of the harness is a leak)
+#[kani::proof]
+#[kani::unwind(5)]
+fn o19_2_assembly_window_dropped_mid_assembly() {
+    let mut w = small(1448 * 4);
+    let d0 = frame::Datagram { sequence_id: 7, channel_id: 1, window_parent_lead: 0, channel_parent_lead: 0, fragment_id: 0, fragment_id_last: 1, data: vec![0u8; 1448].into_boxed_slice() };
+    let r0 = w.try_add(0, d0);
+    assert!(r0.is_none());
+    let d1 = frame::Datagram { sequence_id: 8, channel_id: 1, window_parent_lead: 0, channel_parent_lead: 0, fragment_id: 0, fragment_id_last: 0, data: Box::new([1, 2, 3]) };
+    let r1 = w.try_add(1, d1);
+    assert!(r1.is_some());
+    drop(r1);
+    drop(w);
+}
+
